@@ -61,10 +61,35 @@ def respell_corpus(text, rnd):
     return "\n".join(out)
 
 
+def gen_bracket_program(rnd):
+    """Word lists of deeply bracketed arithmetic: every grouping style (and every caret delimiter) nested in every other."""
+    from vlib import apm
+    consts = {f"bk{i}": rnd.randrange(1, 200) for i in range(5)}
+
+    def expr(d):
+        if d <= 0 or rnd.random() < 0.2:
+            return rnd.choice([apm.num(rnd.randrange(0, 64)), ("sym", rnd.choice(sorted(consts)))])
+        op = rnd.choice(["+", "-", "*", "|", "&", "/", "|", "/"])
+        rhs = apm.num(rnd.randrange(1, 9)) if op == "/" else expr(d - 1)
+        return ("bin", op, expr(d - 1), rhs)
+    stmts = [apm.link(apm.num(rnd.choice([0o1000, 0o2000])))]
+    stmts += [apm.assign(n, apm.num(v)) for n, v in consts.items()]
+    for _ in range(rnd.randrange(4, 12)):
+        e = ("bin", "&", ("grp", expr(rnd.randrange(2, 6))), apm.num(0o177777))
+        r = rnd.random()
+        if r < 0.6:
+            stmts.append(apm.data(".word", e))
+        elif r < 0.8:
+            stmts.append(apm.insn("mov", ("imm", e), ("reg", rnd.randrange(6))))
+        else:
+            stmts.append(apm.insn("clr", ("idx", ("bin", "&", ("grp", e), apm.num(0o777)), rnd.randrange(6))))
+    return apm.Program([apm.SrcFile("f0.mac", stmts)])
+
+
 def run_shard(spec):
     import shutil
     import tempfile
-    from vlib import apm, tight
+    from vlib import apm, asm, forked, meta, tight  # noqa: F401  (everything imported before the first fork)
     rnd = random.Random(spec["seed"] * 982451653 + spec["part"])
     res = {"evaluations": 0, "distinct": [], "counters": {k: 0 for k in DECIDING_COUNTERS}, "sets": {"style_features": []},
            "samples": [], "violations": [], "inconclusive": []}
@@ -73,9 +98,26 @@ def run_shard(spec):
     root = tempfile.mkdtemp(prefix="c10-", dir=os.getcwd())
     try:
         for i in range(spec["count"]):
-            prog, ref, info = tight.gen_program(rnd, opts={"include": rnd.random() < 0.3, "insert": rnd.random() < 0.2})
+            if i % 3 == 2:
+                prog = gen_bracket_program(rnd)
+                cnt["bracket_programs"] = cnt.get("bracket_programs", 0) + 1
+            else:
+                prog, ref, info = tight.gen_program(rnd, opts={"include": rnd.random() < 0.3, "insert": rnd.random() < 0.2})
             case = {"kind": "gen", "prog": apm.to_json(prog), "style_seed": rnd.randrange(1 << 30), "k": spec["k"]}
-            vs, ndiff = run_case(case, cnt, root)
+            # each case in a forked child of this worker, which never parses anything itself: whatever the parser remembers from one text
+            # to the next (memoised sub-parsers, caches) starts empty for every program, so the first spelling of each kind is a first use
+            def job(case=case):
+                c = {}
+                v, nd = run_case(case, c, root)
+                return {"vs": v, "nd": nd, "cnt": c}
+            r = forked.call(job, os.path.join(root, f"res-{i}.json"))
+            if "child_error" in r:
+                res["inconclusive"].append(f"case {i} of part {spec['part']}: {r['child_error']}")
+                continue
+            vs, ndiff = r["vs"], r["nd"]
+            for k, v in r["cnt"].items():
+                cnt[k] = cnt.get(k, 0) + v
+            cnt["forked_cases"] = cnt.get("forked_cases", 0) + 1
             res["violations"].extend(vs)
             res["evaluations"] += 1
             cnt["programs"] += 1
